@@ -1659,7 +1659,7 @@ def law_tangent_trees(M, L):
     return ent
 
 
-def emit_grad(M, L, tangent_block=True):
+def emit_grad(M, L, tangent_block=True, rows=(0, 1, 2, 3, 4, 5), with_stress=True):
     """Gen_HyperGrad_<law>.v: for every Kelvin-Mandel coordinate m of the Green-Lagrange strain, the assembled stress
        component (the code's sum of coefficient x dIkdC[m]) is the derivative of the composite energy; and the
        normal-normal block of the assembled tangent is the derivative of the assembled stress."""
@@ -1675,7 +1675,7 @@ def emit_grad(M, L, tangent_block=True):
            "From Coq Require Import Reals Lra Psatz List.", "From Coquelicot Require Import Coquelicot.",
            "From EFModel Require Import C18_tac C18_gradtac.", "From EFP Require Import Gen_HyperLaws Gen_HyperComp.", "Open Scope R_scope.", ""]
     names = []
-    for m in range(6):
+    for m in (range(6) if with_stress else []):
         others = [c for i, c in enumerate(COMP) if i != m]
         def args(var):
             return " ".join("(%s)" % coqR(_km_arg(m, var)) if i == m else c for i, c in enumerate(COMP))
@@ -1691,10 +1691,10 @@ def emit_grad(M, L, tangent_block=True):
     if tangent_block:
         ent = law_tangent_trees(M, L)
         sig = "(%s : R) (%s : R)" % (ps, " ".join(CV))
-        for j in range(6):
+        for j in rows:
             for m in range(6):
                 out.append("Definition %s_tangent%d%d %s : R := %s." % (n, j, m, sig, coqR(ent[j][m])))
-        for j in range(6):
+        for j in rows:
             for m in range(6):
                 others = [c for i, c in enumerate(COMP) if i != m]
                 def args(var):
@@ -1710,10 +1710,8 @@ def emit_grad(M, L, tangent_block=True):
                 tac = "gsolve" if (j < 3 and m < 3) or I3 is None else "gsolve2"
                 out.append("Proof. intros %s %s %s e0%s. unfold %s. %s %s. Qed." % (ps, " ".join(others), dirs, " H" if I3 is not None else "", unf, tac, "H" if I3 is not None else "I"))
                 names.append(nm)
-    out.append("Print Assumptions %s_stress_is_energy_gradient_5." % n)
-    if tangent_block:
-        out.append("Print Assumptions %s_tangent_is_stress_derivative_00." % n)
-        out.append("Print Assumptions %s_tangent_is_stress_derivative_45." % n)
+    if names:
+        out.append("Print Assumptions %s." % names[-1])
     return "\n".join(out) + "\n"
 
 
@@ -1912,3 +1910,125 @@ def emit_newton_coefs(NC):
     out.append("(* hence d/du_{n+1} [ R_int(u_t) + C(u_t) v_t + M a_t ] = coefK (K + Kgeo) + coefC C + coefM M : the matrix the Newton loop assembles *)")
     out.append("Print Assumptions ts_%s." % names[-1][3:] if names else "")
     return "\n".join(out) + "\n"
+
+
+# --- termwise composite chain rule (laws whose whole-expression proof is too heavy: HolzapfelOgden) -----------------
+def rdiff(t, var):
+    """symbolic derivative of an rtree w.r.t. the variable name `var` (only a WITNESS: Coq re-proves it by is_derive)."""
+    k = t[0]
+    if k == 'c':
+        return ZERO
+    if k == 'v':
+        return ONE if t[1] == var else ZERO
+    if var not in free_vars(t):
+        return ZERO
+    if k == 'neg':
+        return ('neg', rdiff(t[1], var))
+    if k in '+-':
+        return (k, rdiff(t[1], var), rdiff(t[2], var))
+    if k == '*':
+        return ('+', ('*', rdiff(t[1], var), t[2]), ('*', t[1], rdiff(t[2], var)))
+    if k == '/':
+        return ('/', ('-', ('*', rdiff(t[1], var), t[2]), ('*', t[1], rdiff(t[2], var))), ('*', t[2], t[2]))
+    if k == 'pow':
+        q = t[2]
+        return ('*', ('*', ('c', q), ('pow', t[1], q - 1)), rdiff(t[1], var))
+    if k == 'exp':
+        return ('*', t, rdiff(t[1], var))
+    if k == 'ln':
+        return ('/', rdiff(t[1], var), t[1])
+    if k == 'sqrt':
+        return ('/', rdiff(t[1], var), ('*', C(2), t))
+    raise TranslateError("rdiff: %s" % k)
+
+
+def _plus_terms(t):
+    return _plus_terms(t[1]) + [t[2]] if t[0] == '+' else [t]
+
+
+def emit_grad_termwise(M, L):
+    """Gen_HyperGradT_<law>.v: assembled stress = gradient of the composite energy, proved term by term of W
+       (is_derive is additive), the tabulated S_k being identified with the sum of the termwise derivatives through
+       uniqueness of the derivative and the already proved <law>_dWdIk_correct."""
+    n = L["name"]
+    ps = " ".join(L["params"])
+    T = _inv_trees(M, L)
+    terms = _plus_terms(L["W"])
+    dirs = " ".join(CV[6:])
+    sigI = _sig(L)
+    argsI = _args(L)
+    used = [k for k in INV if k in T]
+    out = [HDR % ("EasyFEA/Models/HyperElastic/_laws.py class %s + _state.py" % n),
+           "From Coq Require Import Reals Lra Psatz List.", "From Coquelicot Require Import Coquelicot.",
+           "From EFModel Require Import C18_tac C18_gradtac.", "From EFP Require Import Gen_HyperLaws Gen_HyperComp Gen_Law_%s." % n, "Open Scope R_scope.", "",
+           "Lemma is_derive_sum2 (f g : R -> R) (x a b : R) : is_derive f x a -> is_derive g x b -> is_derive (fun y => f y + g y) x (a + b).",
+           "Proof. intros. now apply @is_derive_plus. Qed.", ""]
+    nt = len(terms)
+    for i, t in enumerate(terms):
+        out.append("Definition %s_term%d %s : R := %s." % (n, i, sigI, coqR(t)))
+        for k in used:
+            out.append("Definition %s_dterm%d_%d %s : R := %s." % (n, i, k, sigI, coqR(rdiff(t, "I%d" % k))))
+    out.append("Lemma %s_W_terms : forall %s %s, %s_W %s = %s." % (n, ps, " ".join(IV), n, argsI, " + ".join("%s_term%d %s" % (n, i, argsI) for i in range(nt))))
+    out.append("Proof. intros. unfold %s_W, %s. reflexivity. Qed." % (n, ", ".join("%s_term%d" % (n, i) for i in range(nt))))
+    fa = "forall %s %s," % (ps, " ".join(IV))
+    # A: single-variable derivative of each term
+    for i in range(nt):
+        for k in used:
+            x = {"I%d" % k: "x"}
+            out.append("Lemma %s_term%d_dI%d : %s 0 < I3 -> is_derive (fun x => %s_term%d %s) I%d (%s_dterm%d_%d %s)."
+                       % (n, i, k, fa, n, i, _args(L, x), k, n, i, k, argsI))
+            out.append("Proof. intros %s %s H3. unfold %s_term%d, %s_dterm%d_%d. dsolve H3. Qed." % (ps, " ".join(IV), n, i, n, i, k))
+    # B: the tabulated S_k is the sum of the termwise derivatives (uniqueness of the derivative)
+    for k in used:
+        x = {"I%d" % k: "x"}
+        ssum = " + ".join("%s_dterm%d_%d %s" % (n, i, k, argsI) for i in range(nt))
+        out.append("Lemma %s_S%d_terms : %s 0 < I3 -> %s_S%d %s = %s." % (n, k, fa, n, k, argsI, ssum))
+        pf = ["intros %s %s H3." % (ps, " ".join(IV)),
+              "rewrite <- (is_derive_unique (fun x => %s_W %s) I%d _ (%s_dWdI%d_correct %s H3))." % (n, _args(L, x), k, n, k, argsI),
+              "apply is_derive_unique.",
+              "apply (is_derive_ext (fun x => %s))." % " + ".join("%s_term%d %s" % (n, i, _args(L, x)) for i in range(nt)),
+              "{ intro x. symmetry. apply %s_W_terms. }" % n]
+        nest = "(%s_term%d_dI%d %s H3)" % (n, 0, k, argsI)
+        body = "%s_term%d %s" % (n, 0, _args(L, x))
+        for i in range(1, nt):
+            nest = "(is_derive_sum2 (fun x => %s) (fun x => %s_term%d %s) _ _ _ %s (%s_term%d_dI%d %s H3))" % (body, n, i, _args(L, x), nest, n, i, k, argsI)
+            body = "%s + %s_term%d %s" % (body, n, i, _args(L, x))
+        pf.append("exact %s." % nest)
+        out.append("Proof.\n  " + "\n  ".join(pf) + "\nQed.")
+    # C: composite derivative of each term along each Kelvin-Mandel coordinate of E, then the sum
+    I3 = T[3][0]
+    for m in range(6):
+        others = [c for i, c in enumerate(COMP) if i != m]
+        sub = lambda var: {COMP[m]: _km_arg(m, var)}
+        def Iargs(var):
+            return " ".join("(%s)" % coqR(subst(T[k][0], sub(var))) if k in T else "0" for k in INV)
+        def gk(k, var):
+            return "(%s)" % coqR(subst(T[k][1][m], sub(var)))
+        def cargs(var):
+            return " ".join("(%s)" % coqR(_km_arg(m, var)) if i == m else c for i, c in enumerate(COMP))
+        hyp = "0 < %s" % coqR(subst(I3, sub("e0")))
+        intro = "intros %s %s %s e0 H." % (ps, " ".join(others), dirs)
+        fah = "forall %s %s %s e0, %s ->" % (ps, " ".join(others), dirs, hyp)
+        vars_ = "%s %s %s e0" % (ps, " ".join(others), dirs)
+        for i in range(nt):
+            dsum = " + ".join("2 * %s_dterm%d_%d %s %s * %s" % (n, i, k, ps, Iargs("e0"), gk(k, "e0")) for k in used)
+            out.append("Lemma %s_term%d_grad%d : %s\n  is_derive (fun e => %s_term%d %s %s) e0 (%s)." % (n, i, m, fah, n, i, ps, Iargs("e"), dsum))
+            out.append("Proof. %s unfold %s_term%d, %s. gsolve H. Qed." % (intro, n, i, ", ".join("%s_dterm%d_%d" % (n, i, k) for k in used)))
+        out.append("Theorem %s_stress_is_energy_gradient_%d : %s\n  is_derive (fun e => %s_W_C %s %s %s) e0 (%s_stress%d %s %s %s)."
+                   % (n, m, fah, n, ps, cargs("e"), dirs, n, m, ps, cargs("e0"), dirs))
+        body = "%s_term%d %s %s" % (n, 0, ps, Iargs("e"))
+        nest = "(%s_term%d_grad%d %s H)" % (n, 0, m, vars_)
+        for i in range(1, nt):
+            nest = "(is_derive_sum2 (fun e => %s) (fun e => %s_term%d %s %s) _ _ _ %s (%s_term%d_grad%d %s H))" % (body, n, i, ps, Iargs("e"), nest, n, i, m, vars_)
+            body = "%s + %s_term%d %s %s" % (body, n, i, ps, Iargs("e"))
+        pf = [intro,
+              "apply (is_derive_ext (fun e => %s))." % body,
+              "{ intro e. unfold %s_W_C. rewrite %s_W_terms. reflexivity. }" % (n, n),
+              "evar_last. exact %s." % nest,
+              "unfold %s_stress%d." % (n, m)]
+        for k in used:
+            pf.append("rewrite (%s_S%d_terms %s %s H)." % (n, k, ps, Iargs("e0")))
+        pf.append("ring.")
+        out.append("Proof.\n  " + "\n  ".join(pf) + "\nQed.")
+    out.append("Print Assumptions %s_stress_is_energy_gradient_5." % n)
+    return "\n".join(out) + "\n", terms
